@@ -247,60 +247,96 @@ def _check_sx(got, b17):
     return ["when bit 17 is %d: %s" % (b17, d) for d in compare(got, want)]
 
 
+POLY = 0x1021
+
+
+def _spec_step(c, b):
+    """One message bit b shifted into the CRC-16/CCITT register c (list of 16 bit forms, LSB first)."""
+    from ..bits import bxor
+    top = bxor(c[15], b)
+    return [top] + [bxor(c[i - 1], top) if (POLY >> i) & 1 else c[i - 1] for i in range(1, 16)]
+
+
+def _register_field(fn):
+    """Decl id and width of the one data member the method assigns."""
+    out = {}
+    for n in fn.walk():
+        if n.get("k") in ("BinaryOperator", "CompoundAssignOperator") and n.get("op", "").endswith("="):
+            t = strip_all(n["c"][0])
+            if t is not None and t.get("k") == "MemberExpr" and t.get("dk") == "Field" and n["op"] not in ("==", "!=", "<=", ">="):
+                out[t["d"]] = t.get("w") or 64
+    return out
+
+
 def rule_crc(prog, fixture=False):
-    r = RuleResult("R-C02-3", "crc_cycle is one step of CRC-16/CCITT (x^16+x^12+x^5+1), update() folds each byte "
-                   "into bits 15..8 and steps 8 times; initial values 0xFFFF (disc) and 0 (XMODEM/.inf)",
-                   floor=0 if fixture else 4)
-    ev = evaluator(prog)
-    for fn in prog.fn("(anonymous namespace)::crc_cycle", required=not fixture):
-        w = fn.params[0].get("w") or 64
-        c = BV([bvar("c.%d" % i) for i in range(16)] + [bconst(0)] * (w - 16))
+    from ..bits import apply_assumptions
+    r = RuleResult("R-C02-3", "CRC16Base::update_bit shifts one message bit into a CRC-16/CCITT register "
+                   "(x^16+x^12+x^5+1, high bit first), update() is eight such steps per byte, most significant bit "
+                   "first; initial values 0xFFFF (disc) and 0 (XMODEM/.inf) - by symbolic evaluation of the methods "
+                   "over GF(2) bit forms, all paths", floor=0 if fixture else 4)
+
+    def check(fn, reg, w, paths_of, want_bits, what):
+        key = "%s::%s" % (fn.relfile(), fn.qn)
         try:
-            paths = ev.run(fn, [c])
+            paths = paths_of()
         except Unsupported as e:
-            raise AnalysisBroken("cannot evaluate crc_cycle: %s" % e)
+            r.undecided.append("%s:%d: %s cannot be evaluated in the bit domain (%s)" % (fn.relfile(), fn.line, fn.qn, e))
+            return
         probs = []
-        cover = set()
-        for assume, env, got in paths:
-            vals = [assume["c.15"]] if "c.15" in assume else [0, 1]
-            for v in vals:
-                cover.add(v)
-                g = got.subst({"c.15": v})
-                poly = 0x1021 if v else 0
-                want = BV([bconst(poly & 1)] + [((bvar("c.%d" % (i - 1))[0]), (poly >> i) & 1) for i in range(1, 16)]
-                          + [bconst(0)] * (g.width - 16))
-                probs += ["top bit %d: %s" % (v, d) for d in compare(g, want)]
-        if cover != {0, 1}:
-            probs.append("not both values of the top bit covered")
-        r.add("%s::%s" % (fn.relfile(), fn.qn), "%s:%d" % (fn.relfile(), fn.line), not probs,
-              "(crc<<1) ^ (0x1021 if bit15) mod 2^16" if not probs else "crc_cycle is not the CCITT step: " + "; ".join(probs[:4]))
+        want = BV(want_bits + [bconst(0)] * (w - 16))
+        for assume, env, _ret in paths:
+            got = env.get(reg)
+            if not isinstance(got, BV):
+                probs.append("the register is lost on a path")
+                continue
+            g, wv = apply_assumptions(got, assume), apply_assumptions(want, assume)
+            d = compare(g, wv)
+            if d:
+                cond = ", ".join("%s=%s" % (k_, v if not isinstance(v, tuple) else bshow(v)) for k_, v in list(assume.items())[:4])
+                probs.append("when %s: %s" % (cond or "always", d[0]))
+        r.add(key, "%s:%d" % (fn.relfile(), fn.line), not probs,
+              "%s (%d paths)" % (what, len(paths)) if not probs else
+              "%s is not %s: %s" % (fn.qn, what, "; ".join(probs[:3])))
+
+    sym_c = [bvar("c.%d" % i) for i in range(16)]
+    for fn in prog.fn("DFS::CRC16Base::update_bit", required=not fixture):
+        regs = _register_field(fn)
+        if len(regs) != 1:
+            r.undecided.append("%s: update_bit assigns %d data members, expected the CRC register only" % (fn.loc(fn.body), len(regs)))
+            continue
+        (reg, w), = regs.items()
+        ev = Evaluator(prog, lambda base, idx, width: None, max_inline=6)
+        pw = fn.params[0].get("w") or 8
+        arg = BV([bvar("b")] + [bconst(0)] * (pw - 1))
+        env0 = {reg: BV(sym_c + [bconst(0)] * (w - 16))}
+        check(fn, reg, w, lambda: ev.run(fn, [arg], env=env0), _spec_step(sym_c, bvar("b")),
+              "one CCITT step: crc' = (crc<<1) ^ (0x1021 if bit15^b) mod 2^16")
     for fn in prog.fn("DFS::CRC16Base::update", required=not fixture):
-        probs = []
-        xors = [n for n in fn.walk() if n.get("k") == "CompoundAssignOperator" and n.get("op") == "^="]
-        ok_x = False
-        for x in xors:
-            rhs = strip_all(x["c"][1])
-            if rhs.get("k") == "BinaryOperator" and rhs.get("op") == "<<" and folded(rhs["c"][1]) == 8:
-                src = strip(rhs["c"][0])
-                ok_x = True
-        if not ok_x:
-            probs.append("the input byte is not XOR-ed into bits 15..8 (in << 8)")
-        loops = [n for n in fn.walk() if n.get("k") == "ForStmt" and
-                 any(y.get("k") == "CallExpr" and notpl(y.get("q") or "").endswith("crc_cycle") for y in walk(n))]
-        trip = None
-        for lp in loops:
-            parts = lp.get("parts", {})
-            if "init" in parts and "cond" in parts and "inc" in parts:
-                init = [y for y in walk(lp["c"][parts["init"]]) if y.get("k") == "VarDecl"]
-                cond = strip_all(lp["c"][parts["cond"]])
-                inc = strip_all(lp["c"][parts["inc"]])
-                if init and init[0].get("c") and folded(init[0]["c"][0]) == 0 and cond.get("op") == "<" and \
-                        folded(cond["c"][1]) is not None and inc.get("k") == "UnaryOperator" and inc.get("op") == "++":
-                    trip = folded(cond["c"][1])
-        if trip != 8:
-            probs.append("crc_cycle is not applied exactly 8 times per byte (found %s)" % trip)
-        r.add("%s::%s" % (fn.relfile(), fn.qn), "%s:%d" % (fn.relfile(), fn.line), not probs,
-              "byte folded into the top half, 8 steps" if not probs else "; ".join(probs))
+        regs = _register_field(fn)
+        for g_ in prog.fn("DFS::CRC16Base::update_bit", required=False):
+            regs = regs or _register_field(g_)
+        loops = [n for n in fn.body.get("c", []) if n.get("k") in ("ForStmt", "WhileStmt")]
+        if len(regs) != 1 or len(loops) != 1 or "body" not in loops[0].get("parts", {}):
+            r.undecided.append("%s: update() is not a single loop over the bytes that updates the CRC register" % fn.loc(fn.body))
+            continue
+        (reg, w), = regs.items()
+        lp = loops[0]
+        # exactly one byte is consumed per pass: one dereference of the cursor, advanced once
+        derefs = [n for n in walk(lp) if n.get("k") == "UnaryOperator" and n.get("op") == "*"] + \
+                 [n for n in walk(lp) if n.get("k") == "ArraySubscriptExpr"]
+        incs = [n for n in walk(lp) if n.get("k") == "UnaryOperator" and n.get("op") in ("++",) and not (n.get("w"))]
+        d_bits = [bvar("d.%d" % i) for i in range(8)]
+        ev = Evaluator(prog, lambda base, idx, width: BV(d_bits + [bconst(0)] * (max(width, 8) - 8)), max_inline=6)
+        env0 = {reg: BV(sym_c + [bconst(0)] * (w - 16))}
+        want = list(sym_c)
+        for i in range(7, -1, -1):
+            want = _spec_step(want, d_bits[i])
+        body = lp["c"][lp["parts"]["body"]]
+        check(fn, reg, w, lambda: ev._stmts(fn, [body], [({}, dict(env0), None)], 0), want,
+              "eight CCITT steps per byte, most significant bit first")
+        if len(incs) != 1:
+            r.add("%s::%s::cursor" % (fn.relfile(), fn.qn), fn.loc(lp), False,
+                  "the byte cursor is advanced %d times per pass of the loop in update(), not once" % len(incs))
     inits = {"DFS::CCITT_CRC16::init": 0xFFFF, "DFS::TapeCRC::init": 0}
     for gid, g in prog.globals.items():
         if g["q"] in inits:
@@ -575,4 +611,6 @@ SELFTESTS = [
     (rule_entry_fields, ["c02_bad.cc"], ["c02_good.cc"], "file_length"),
     (rule_sign_extend, ["c02_bad.cc"], ["c02_good.cc"], "sign_extend"),
     (rule_current_directory_tests, ["c02_bad.cc"], ["c02_good.cc"], "curdir-test"),
+    (rule_crc, ["c02_crc_bad.cc"], ["c02_crc_good.cc"], "CRC16Base::update_bit"),
+    (rule_crc, ["c02_crc_bad.cc"], ["c02_crc_good.cc"], "CRC16Base::update"),
 ]
